@@ -153,6 +153,8 @@ type c02World struct {
 	scale bool
 	// a quota was deleted (or moved, which deletes it under the old parent) while guaranteed-usage mode is on
 	gateDelete bool
+	// a dimension was dropped from a quota's max while guaranteed-usage mode is on
+	gateDimDropped bool
 }
 
 func (w *c02World) byID(id int) *c02D {
@@ -550,6 +552,19 @@ func c02SpecCheck(h *vHarness, w *c02World, m *c02Mgr, r *vRand) bool {
 						q.name, d, ig, want)
 					return false
 				}
+				// the calculator remembers the guarantee it last pushed per quota and dimension and never forgets a
+				// dimension that disappeared: when the dimension comes back with the same guarantee the new node keeps 0
+				if _, tracked := q.max[d]; tracked && w.gateDimDropped {
+					pname := extension.RootQuotaName
+					if q.parent != 0 {
+						pname = w.byID(q.parent).name
+					}
+					if tn := c02NodeOf(m, pname, d, q.name); tn != nil && tn.guarantee != c02DGuarantee(w, q, d) {
+						h.Fail("C02:guarantee-cache-stale-after-dimension-readd", "guaranteed-usage mode: parent %s dim %d node %s carries guarantee %d, the quota's guarantee is %d; the dimension was dropped and added again",
+							pname, d, q.name, tn.guarantee, c02DGuarantee(w, q, d))
+						return false
+					}
+				}
 			}
 		}
 	}
@@ -820,6 +835,8 @@ func TestVerifC02Spec(t *testing.T) {
 			}
 		}
 		m := c02NewMgr(w)
+		h.Op("step 0")
+		h.Obs("step 0")
 		crashed := h.Guard(func() {
 			for _, q := range w.qs {
 				if err := m.gqm.UpdateQuota(c02Build(w, q)); err != nil {
@@ -842,8 +859,6 @@ func TestVerifC02Spec(t *testing.T) {
 			h.End()
 			continue
 		}
-		h.Op("step 0")
-		h.Obs("step 0")
 		goOn := c02SpecCheck(h, w, m, r)
 
 		steps := r.Range(3, 10)
@@ -890,6 +905,7 @@ func TestVerifC02Spec(t *testing.T) {
 				if q.min != nil {
 					delete(q.min, d)
 				}
+				w.gateDimDropped = w.gateDimDropped || w.gate
 			}
 			code := kind
 			switch {
